@@ -46,6 +46,10 @@ type job struct {
 	Drift []bool `json:"drift"`
 	Gone0 []int  `json:"gone0"`
 	Steps []step `json:"steps"`
+	// Free: the schedule fixes where the interrupts fall; the number of transactions AFTER the last scripted
+	// interrupt is whatever the real run needs (schedules generated from the as-is model are executed on a
+	// tree that may be repaired, and then need a different number of batches). Validation is not relaxed.
+	Free bool `json:"free,omitempty"`
 }
 
 func (j *job) fixtureKey() string {
@@ -508,6 +512,10 @@ func (r *runner) doOpen(cc bool) {
 					cancelled = true
 				}
 			default:
+				if r.j.Free && (r.peek() == "Finish" || r.peek() == "Fail") {
+					pendingTx = true // one more batch than the generating model needed
+					break
+				}
 				// the real run asks for one more transaction than the schedule foresees
 				os.Remove(sp)
 				r.diverged("unscheduled transaction")
@@ -551,6 +559,9 @@ func (r *runner) doOpen(cc bool) {
 		flush(false, p)
 		r.out.Emit(kit.M{"ev": "Finish", "obs": true, "proj": p, "viewEq": eq, "ctrEq": geq, "diff": diff})
 		r.db = db
+		for r.j.Free && r.peek() == "Tx" {
+			r.pos++ // fewer batches than the generating model needed
+		}
 		if r.peek() == "Finish" {
 			r.pos++
 		} else {
